@@ -16,7 +16,7 @@ pub static ABANDON: Scenario = Scenario {
     id: "C12",
     name: "c12-abandon",
     run,
-    quick_runs: 6000,
+    quick_runs: 9000,
     thorough_runs: 200_000,
     rule: "one run = client and server Networks, stream limit 2-8, a history of 10-200 calls (well beyond the limit) each abandoned at a PRNG instant (before the stream opens, mid request write, while the handler runs, mid response transfer, never) by dropping the future or by the outbound timeout, interleaved with sibling calls that are not abandoned; strict (no loss) and relaxed (loss) configurations; distinct = distinct order signature over (call started, abandoned, handler started/dropped/completed, call finished); non-trivial = at least one call was abandoned while a handler was running or a fault fired",
     real: super::REAL_NET,
